@@ -69,6 +69,42 @@ func computeDispatch(p *load.Program) (*dispatchTable, error) {
 		if fd == nil || fd.Body == nil {
 			return "-", fmt.Errorf("function %s not found", key)
 		}
+		// the switch over Descriptor.Tag may have moved into a function this one calls (writeDescriptor → writeDescriptorPayload):
+		// the dispatcher is then that callee, provided it is the only one with such a switch
+		hasTagSwitch := func(d *ast.FuncDecl) bool {
+			found := false
+			ast.Inspect(d.Body, func(n ast.Node) bool {
+				if sw, ok := n.(*ast.SwitchStmt); ok && sw.Tag != nil && fieldOf(p, sw.Tag) == q {
+					found = true
+				}
+				return true
+			})
+			return found
+		}
+		if !hasTagSwitch(fd) {
+			var cands []*ast.FuncDecl
+			ast.Inspect(fd.Body, func(n ast.Node) bool {
+				if c, ok := n.(*ast.CallExpr); ok {
+					if fn := calleeOf(p, c); fn != nil && fn.Pkg() == p.Types {
+						if d := p.Decl(fn.Name()); d != nil && d.Body != nil && d != fd && fn.Name() != "parseDescriptors" && fn.Name() != "calcDescriptorLength" && fn.Name() != "writeDescriptor" && hasTagSwitch(d) {
+							dup := false
+							for _, x := range cands {
+								if x == d {
+									dup = true
+								}
+							}
+							if !dup {
+								cands = append(cands, d)
+							}
+						}
+					}
+				}
+				return true
+			})
+			if len(cands) == 1 {
+				fd = cands[0]
+			}
+		}
 		pos := p.Pos(fd.Pos())
 		if err := checkQuantUse(p, q, fd); err != nil {
 			return pos, fmt.Errorf("%s: %v", key, err)
